@@ -153,6 +153,73 @@ func tmReencodeV2(c *hx.Ctx, b []byte) ([]byte, string) {
 		return b, "v2-asis"
 	}
 	wrap := func(in []byte) []byte { return append(append([]byte{0x30}, tmDerLen(len(in))...), in...) }
+	// the elements of the certificate and of its details
+	elems := func(in []byte) [][]byte {
+		var out [][]byte
+		for len(in) > 0 {
+			_, ct, ok := tmDerSplit(in)
+			if !ok {
+				return nil
+			}
+			hdr := 2
+			if in[1]&0x80 != 0 {
+				hdr = 2 + int(in[1]&0x7f)
+			}
+			out = append(out, in[:hdr+len(ct)])
+			in = in[hdr+len(ct):]
+		}
+		return out
+	}
+	cat := func(es [][]byte) []byte {
+		var out []byte
+		for _, e := range es {
+			out = append(out, e...)
+		}
+		return out
+	}
+	if es := elems(inner); len(es) >= 2 && c.Chance(0.4) {
+		insertAt := func(es [][]byte, i int, e []byte) [][]byte {
+			out := append([][]byte{}, es[:i]...)
+			out = append(out, e)
+			return append(out, es[i:]...)
+		}
+		_, det, _ := tmDerSplit(es[0])
+		mkDetails := func(body []byte) []byte { return append(append([]byte{0xa0}, tmDerLen(len(body))...), body...) }
+		sigEl := es[len(es)-1]
+		switch c.Intn(6) {
+		case 0: // a second details element, carrying another name, somewhere among the elements
+			frag := mkDetails(append([]byte{0x80, 0x07}, []byte("mallory")...))
+			return wrap(cat(insertAt(es, c.Intn(len(es)+1), frag))), "v2-second-details"
+		case 1: // the whole details element twice
+			return wrap(cat(insertAt(es, 1, es[0]))), "v2-details-twice"
+		case 2: // a second occurrence of a field inside the details (lengths repaired): name, isCA, notAfter
+			des := elems(det)
+			if des == nil {
+				return b, "v2-asis"
+			}
+			extra := [][]byte{append([]byte{0x80, 0x07}, []byte("mallory")...), {0x84, 0x01, 0xff}, {0x86, 0x01, 0x7f}, {0xa3, 0x07, 0x0c, 0x05, 'a', 'd', 'm', 'i', 'n'}}[c.Intn(4)]
+			des = insertAt(des, c.Intn(len(des)+1), extra)
+			es2 := append([][]byte{mkDetails(cat(des))}, es[1:]...)
+			return wrap(cat(es2)), "v2-field-twice-in-details"
+		case 3: // a second signature element after the first (ignored) or in front of it (takes its place)
+			other := append([]byte{0x83, byte(len(sigEl) - 2)}, c.RandBytes(len(sigEl)-2)...)
+			if len(sigEl) < 2 || len(sigEl)-2 > 127 {
+				return b, "v2-asis"
+			}
+			if c.Chance(0.5) {
+				return wrap(cat(append(append([][]byte{}, es...), other))), "v2-signature-after"
+			}
+			return wrap(cat(insertAt(es, len(es)-1, other))), "v2-signature-in-front"
+		case 4: // a second public key element
+			pk := append([]byte{0x82, 0x20}, c.RandBytes(32)...)
+			return wrap(cat(insertAt(es, 1+c.Intn(len(es)-1), pk))), "v2-second-pubkey"
+		default: // elements in another order
+			es2 := append([][]byte{}, es...)
+			i := c.Intn(len(es2) - 1)
+			es2[i], es2[i+1] = es2[i+1], es2[i]
+			return wrap(cat(es2)), "v2-elements-swapped"
+		}
+	}
 	switch c.Intn(6) {
 	case 0: // bytes after the certificate
 		return append(append([]byte{}, b...), c.RandBytes(1+c.Intn(8))...), "v2-trailing-bytes"
@@ -199,8 +266,81 @@ func tmReencodeV2(c *hx.Ctx, b []byte) ([]byte, string) {
 	}
 }
 
+// tmIDField: one identity field as a field of RawNebulaCertificateDetails, set to something the certificate does not say
+func tmIDField(c *hx.Ctx, k int, curve cert.Curve) ([]byte, string) {
+	switch k {
+	case 0:
+		return protowire.AppendBytes(protowire.AppendTag(nil, 1, protowire.BytesType), []byte("mallory")), "name"
+	case 1:
+		v := protowire.AppendVarint(protowire.AppendVarint(nil, 0x0a090807), 0xffffff00)
+		return protowire.AppendBytes(protowire.AppendTag(nil, 2, protowire.BytesType), v), "network"
+	case 2:
+		v := protowire.AppendVarint(protowire.AppendVarint(nil, 0xc0a80000), 0xffff0000)
+		return protowire.AppendBytes(protowire.AppendTag(nil, 3, protowire.BytesType), v), "unsafe"
+	case 3:
+		return protowire.AppendBytes(protowire.AppendTag(nil, 4, protowire.BytesType), []byte("admin")), "group"
+	case 4:
+		return protowire.AppendVarint(protowire.AppendTag(nil, 5, protowire.VarintType), 1), "notbefore"
+	case 5:
+		return protowire.AppendVarint(protowire.AppendTag(nil, 6, protowire.VarintType), 4102444800), "notafter"
+	case 6:
+		return protowire.AppendBytes(protowire.AppendTag(nil, 7, protowire.BytesType), c.RandBytes(32)), "pubkey"
+	case 7:
+		return protowire.AppendVarint(protowire.AppendTag(nil, 8, protowire.VarintType), 1), "isca"
+	case 8:
+		return protowire.AppendBytes(protowire.AppendTag(nil, 9, protowire.BytesType), c.RandBytes(32)), "issuer"
+	default:
+		return protowire.AppendVarint(protowire.AppendTag(nil, 100, protowire.VarintType), uint64(1-curve)), "curve"
+	}
+}
+
+// tmV1Split returns the Details and Signature fields of a v1 encoding
+func tmV1Split(b []byte) (details, sig []byte, ok bool) {
+	for len(b) > 0 {
+		num, typ, n := protowire.ConsumeTag(b)
+		if n < 0 || typ != protowire.BytesType {
+			return nil, nil, false
+		}
+		v, m := protowire.ConsumeBytes(b[n:])
+		if m < 0 {
+			return nil, nil, false
+		}
+		b = b[n+m:]
+		if num == 1 {
+			details = v
+		} else if num == 2 {
+			sig = v
+		}
+	}
+	return details, sig, details != nil
+}
+
+// tmV1ExtraDetails places an extra occurrence of the outer Details field: 0 = right after the genuine one, 1 = after
+// the signature, 2 = in front
+func tmV1ExtraDetails(b, frag []byte, pos int) ([]byte, bool) {
+	details, sig, ok := tmV1Split(b)
+	if !ok {
+		return nil, false
+	}
+	fD := func(d []byte) []byte {
+		return protowire.AppendBytes(protowire.AppendTag(nil, 1, protowire.BytesType), d)
+	}
+	var fS []byte
+	if len(sig) > 0 {
+		fS = protowire.AppendBytes(protowire.AppendTag(nil, 2, protowire.BytesType), sig)
+	}
+	switch pos {
+	case 0:
+		return append(append(fD(details), fD(frag)...), fS...), true
+	case 1:
+		return append(append(fD(details), fS...), fD(frag)...), true
+	default:
+		return append(append(fD(frag), fD(details)...), fS...), true
+	}
+}
+
 // tmReencodeV1: protobuf re-encodings. Those that keep the decoded content re-marshal to the signed bytes.
-func tmReencodeV1(c *hx.Ctx, b []byte) ([]byte, string) {
+func tmReencodeV1(c *hx.Ctx, b []byte, curve cert.Curve) ([]byte, string) {
 	// split the top level
 	var details, sig []byte
 	rest := b
@@ -256,6 +396,86 @@ func tmReencodeV1(c *hx.Ctx, b []byte) ([]byte, string) {
 			out = append(out, f.raw...)
 		}
 		return out
+	}
+	// ---- protobuf-structured tampering: extra well-formed occurrences of fields -------------------------
+	idField := func(k int) ([]byte, string) { return tmIDField(c, k, curve) }
+	outer := func(parts ...[]byte) []byte { // the top-level fields in the given order
+		var out []byte
+		for _, p := range parts {
+			out = append(out, p...)
+		}
+		return out
+	}
+	fDetails := func(d []byte) []byte {
+		return protowire.AppendBytes(protowire.AppendTag(nil, 1, protowire.BytesType), d)
+	}
+	fSig := func(s []byte) []byte {
+		if len(s) == 0 {
+			return nil
+		}
+		return protowire.AppendBytes(protowire.AppendTag(nil, 2, protowire.BytesType), s)
+	}
+	if c.Chance(0.55) {
+		switch c.Intn(9) {
+		case 0, 1, 2, 3: // an extra occurrence of the outer Details field: proto.Unmarshal merges it into the first
+			var frag []byte
+			var lbl string
+			if c.Chance(0.6) {
+				frag, lbl = idField(c.Intn(10))
+			} else {
+				n := 2 + c.Intn(4)
+				lbl = "combo"
+				for i := 0; i < n; i++ {
+					f, _ := idField(c.Intn(10))
+					frag = append(frag, f...)
+				}
+			}
+			switch c.Intn(3) {
+			case 0:
+				return outer(fDetails(details), fDetails(frag), fSig(sig)), "v1-details-appended-" + lbl
+			case 1:
+				return outer(fDetails(details), fSig(sig), fDetails(frag)), "v1-details-after-sig-" + lbl
+			default:
+				return outer(fDetails(frag), fDetails(details), fSig(sig)), "v1-details-prepended-" + lbl
+			}
+		case 4: // an extra occurrence that changes nothing: empty, or only an unknown field
+			frag := []byte{}
+			if c.Chance(0.5) {
+				frag = protowire.AppendVarint(protowire.AppendTag(nil, 15, protowire.VarintType), c.U64())
+			}
+			if c.Chance(0.5) {
+				return outer(fDetails(details), fDetails(frag), fSig(sig)), "v1-details-appended-neutral"
+			}
+			return outer(fDetails(frag), fDetails(details), fSig(sig)), "v1-details-prepended-neutral"
+		case 5: // an extra occurrence of a scalar field inside the Details: the last one wins
+			f, lbl := idField([]int{0, 4, 5, 6, 7, 8, 9}[c.Intn(7)])
+			if c.Chance(0.5) {
+				return outer(fDetails(append(append([]byte{}, details...), f...)), fSig(sig)), "v1-scalar-last-" + lbl
+			}
+			return outer(fDetails(append(f, details...)), fSig(sig)), "v1-scalar-first-" + lbl
+		case 6: // an extra element of a repeated field inside the Details, in front or at the end
+			f, lbl := idField(1 + c.Intn(3))
+			if c.Chance(0.5) {
+				return outer(fDetails(append(append([]byte{}, details...), f...)), fSig(sig)), "v1-repeated-appended-" + lbl
+			}
+			return outer(fDetails(append(f, details...)), fSig(sig)), "v1-repeated-prepended-" + lbl
+		case 7: // an extra Signature field: the last one wins
+			other := c.RandBytes(len(sig))
+			switch c.Intn(3) {
+			case 0:
+				return outer(fDetails(details), fSig(sig), fSig(other)), "v1-signature-overridden"
+			case 1:
+				return outer(fDetails(details), fSig(other), fSig(sig)), "v1-signature-decoy-first"
+			default:
+				return outer(fSig(other), fDetails(details), fSig(sig)), "v1-signature-decoy-first"
+			}
+		default: // unknown fields at every level, including a group
+			unk := protowire.AppendTag(nil, 20, protowire.StartGroupType)
+			unk = protowire.AppendVarint(protowire.AppendTag(unk, 1, protowire.VarintType), 7)
+			unk = protowire.AppendTag(unk, 20, protowire.EndGroupType)
+			nd := append(append([]byte{}, unk...), details...)
+			return outer(unk, fDetails(nd), fSig(sig), protowire.AppendFixed32(protowire.AppendTag(nil, 3, protowire.Fixed32Type), 9)), "v1-unknown-group"
+		}
 	}
 	switch c.Intn(8) {
 	case 0: // signature before the details
@@ -444,11 +664,57 @@ func runCertTamper(c *hx.Ctx) {
 		}
 	}
 
-	for cw.Total() < c.N {
+	// boundary sweep first: for one v1 leaf of every CA, in both encodings, an extra occurrence of the outer Details
+	// field setting each identity field alone, and all of them together, at each of the three positions
+	type forcedCase struct {
+		l    *tmLeaf
+		form int
+		b    []byte
+		what string
+	}
+	var forced []forcedCase
+	seenCA := map[*ccCA]bool{}
+	for _, l := range leaves {
+		if l.crt.Version() != cert.Version1 || seenCA[l.ca] {
+			continue
+		}
+		seenCA[l.ca] = true
+		for form := 0; form < 2; form++ {
+			base := l.std
+			if form == 1 {
+				base = l.hs
+			}
+			for k := 0; k <= 10; k++ {
+				var frag []byte
+				lbl := "all"
+				if k < 10 {
+					frag, lbl = tmIDField(c, k, l.crt.Curve())
+				} else {
+					for j := 0; j < 10; j++ {
+						f, _ := tmIDField(c, j, l.crt.Curve())
+						frag = append(frag, f...)
+					}
+				}
+				for pos := 0; pos < 3; pos++ {
+					if nb, ok := tmV1ExtraDetails(base, frag, pos); ok {
+						forced = append(forced, forcedCase{l, form, nb, fmt.Sprintf("v1-sweep-details-pos%d-%s", pos, lbl)})
+					}
+				}
+			}
+		}
+	}
+
+	for cw.Total() < c.N || len(forced) > 0 {
 		l := leaves[c.Intn(len(leaves))]
+		form := c.Intn(2)
+		var fc *forcedCase
+		if len(forced) > 0 {
+			fc = &forced[0]
+			forced = forced[1:]
+			l, form = fc.l, fc.form
+		}
 		ver := l.crt.Version()
 		curve := l.crt.Curve()
-		form := c.Intn(2)
 		base := l.std
 		if form == 1 {
 			base = l.hs
@@ -464,7 +730,12 @@ func runCertTamper(c *hx.Ctx) {
 		if form == 1 {
 			pick = append(pick, "foreign-key", "foreign-curve")
 		}
-		switch pick[c.Intn(len(pick))] {
+		choice := pick[c.Intn(len(pick))]
+		if fc != nil {
+			choice, b, what = "forced", fc.b, fc.what
+		}
+		switch choice {
+		case "forced":
 		case "bytes":
 			var lbl string
 			b, lbl = ccMutate(c, base)
@@ -473,7 +744,7 @@ func runCertTamper(c *hx.Ctx) {
 			if ver == cert.Version2 {
 				b, what = tmReencodeV2(c, base)
 			} else {
-				b, what = tmReencodeV1(c, base)
+				b, what = tmReencodeV1(c, base, curve)
 			}
 		case "untouched":
 			b, what = append([]byte{}, base...), "untouched"
